@@ -10,3 +10,9 @@ const Available = false
 
 // Observe is a no-op without the hooks.
 func Observe(f func(site string)) {}
+
+// Recovered is one panic a connection goroutine of the broker recovered from.
+type Recovered struct{ Site, Value, Stack string }
+
+func WatchRecovered()             {}
+func TakeRecovered() []Recovered { return nil }
